@@ -232,6 +232,8 @@ pub fn run(rep: &mut Report, tier: &str) {
             }
         }
     });
+    rep.count("comments_before_inline_elements_of_mixed_content", crate::docgen::MIXED_COMMENTS.load(std::sync::atomic::Ordering::Relaxed));
+    rep.require("comments_before_inline_elements_of_mixed_content", 20);
     rep.require("accepted.strict.chunk", (n_docs / 3) as u64);
     rep.require("accepted.lenient.chunk", (n_docs / 3) as u64);
     rep.require("accepted.strict.whole-spec-varied", 15);
